@@ -613,6 +613,7 @@ def lazy_suite(ctx, count, batch=False):
     parsed = 0
     rejected = 0
     chunked = 0
+    ts_cases = []
     for (desc, real_pops, res, line, orc), out in zip(cases, outs):
         ctx.evaluations += 1
         ctx.traces += 1
@@ -649,7 +650,7 @@ def lazy_suite(ctx, count, batch=False):
             ctx.disagree('lazyrun', desc, f'{len(msents)} results', f'{len(res)} results')
             continue
         ok = True
-        for (kind, _, mres), trees in zip(msents, res):
+        for si, ((kind, _, mres), trees) in enumerate(zip(msents, res)):
             failed = len(trees) == 1 and trees[0].score == -float('inf')
             if (kind == 'F') != failed or kind == 'E':
                 ctx.disagree('lazyrun', desc, kind, 'failed' if failed else 'parsed')
@@ -658,6 +659,13 @@ def lazy_suite(ctx, count, batch=False):
             if failed:
                 continue
             got = [(S.to_int(t.score), T.enc_tree(t.tree)) for t in trees]
+            # C09 on the real objects: the Lean function `treeScore` (theorem tree_score) applied to the real tree
+            psent = orc[0][si][0]
+            for sc_int, enc in got:
+                ts_cases.append(('treescore', ' '.join(
+                    ['treescore', str(len(orc[1]))] + [enc_cat(c) for c in orc[1]] + [str(psent.penalty), str(psent.n)]
+                    + [str(v) for row in psent.tags for v in row] + [str(v) for row in psent.deps for v in row] + [enc]),
+                    f'ok {sc_int}', desc))
             if got != mres:
                 k = 0
                 while k < min(len(got), len(mres)) and got[k] == mres[k]:
@@ -669,6 +677,8 @@ def lazy_suite(ctx, count, batch=False):
             parsed += 1
         if ok and any(k == 'T' for k, _, _ in msents):
             ctx.nontrivial_add(json.dumps(desc, sort_keys=True)[:3000])
+    common.compare_with_model(ctx, ts_cases)
+    ctx.extra['treescore_on_real_trees' + ('_batch' if batch else '')] = len(ts_cases)
     ctx.extra['lazy_cases' + ('_batch' if batch else '')] = len(cases)
     ctx.extra['lazy_parsed_sentences' + ('_batch' if batch else '')] = parsed
     ctx.extra['lazy_rejected_duplicate_lists' + ('_batch' if batch else '')] = rejected
